@@ -26,6 +26,17 @@ PROPS = {
         technique="Lean 4 proof (refinement to a mathematical set by induction over operation sequences) + differential correspondence on op histories",
         explanation="refinement theorem for all op sequences; correspondence on random histories",
     ),
+    "C17": dict(
+        title="set: JSON and YAML encodings of Set round-trip membership",
+        lean_modules=["Properties.C17"],
+        harness=[dict(bin="h-set")],
+        trusted=[GO_TRUST % "h-set", "encoding/json and gopkg.in/yaml.v3 round-trip lists of the element types (hypothesis Codec.RoundTrips; observed by the correspondence run, not proved)"],
+        assumptions=["the list codec round-trips the element type (no NaN floats); a literal YAML null decoded into a pre-filled set is yaml.v3 behaviour and out of domain"],
+        level_text="Machine-checked Lean 4 theorems, parametric in the element list codec: Unmarshal(Marshal(s)) into any target is exactly target ∪ s (hence exact round trip into nil/empty targets, nil and empty sets included), the encoding is Slice() = each member once, nil exactly when empty. PARTIAL: the codec's own round-trip law is a hypothesis of the theorems, validated differentially (json and yaml.v3, standalone and as struct field, 7 element types incl. YAML-significant strings) rather than proved.",
+        level_note="Trusted: Lean kernel + standard axioms; encoding/json and yaml.v3 (not modelled; their list round trip is the hypothesis RoundTrips); the Go harness and Lean driver.",
+        technique="Lean 4 proof parametric in a codec law (reusing the C07 refinement lemmas) + differential correspondence through the real codecs",
+        explanation="partial: codec law is a hypothesis; everything Set itself contributes is proved",
+    ),
 }
 
 # properties not claimed, with the reason (kept current; see DESIGN.md)
